@@ -619,7 +619,7 @@ def run_shard(tier, seed, shard, nshards, res):
                 for j in range(3):
                     bulk_while_shards_locked(dc, sc, res, rng, shards, 'c13 bulk under shard locks seed=%d shard=%d i=%d j=%d' % (
                         seed, shard, i, j))
-            if res.counters.get('violations_raw', 0) > 8:
+            if res.new_violations() > 8:
                 return
         probe.reset()
         rng = common.rng_for(seed, 'c13r', shard)
